@@ -36,6 +36,22 @@ type sshScript struct {
 	Batch   []string            `json:"batch"`   // behaviour per batch call
 	Connect []string            `json:"connect"` // behaviour per connection
 	Chunk   int                 `json:"chunk"`   // data packet payload size (0 = 32768)
+	// *Faults: for objects without an entry of their own, the behaviour of the
+	// first attempt is drawn from this list by the object id (later attempts: ok)
+	GetFaults    []string `json:"get_faults"`
+	PutFaults    []string `json:"put_faults"`
+	VerifyFaults []string `json:"verify_faults"`
+}
+
+func behaviourFor(own map[string][]string, faults []string, oid string, n int) string {
+	if l, ok := own[oid]; ok {
+		return pick(l, n)
+	}
+	if len(faults) == 0 || n > 0 {
+		return "ok"
+	}
+	h := sha256.Sum256([]byte("behaviour:" + oid))
+	return faults[int(h[0])%len(faults)]
 }
 
 type sshSrv struct {
@@ -331,7 +347,7 @@ func (s *sshSrv) sendBody(b []byte) {
 
 func (s *sshSrv) getObject(oid string, args []string) {
 	n := s.attempt("get-" + oid)
-	kind := pick(s.sc.Get[oid], n)
+	kind := behaviourFor(s.sc.Get, s.sc.GetFaults, oid, n)
 	s.logf(map[string]interface{}{"kind": "get-object", "oid": oid, "args": args, "behave": kind, "attempt": n})
 	data, have := s.stored(oid)
 	if !have {
@@ -401,7 +417,7 @@ func (s *sshSrv) getObject(oid string, args []string) {
 
 func (s *sshSrv) putObject(oid string, args []string, lines [][]byte) {
 	n := s.attempt("put-" + oid)
-	kind := pick(s.sc.Put[oid], n)
+	kind := behaviourFor(s.sc.Put, s.sc.PutFaults, oid, n)
 	var body []byte
 	for _, l := range lines {
 		body = append(body, l...)
@@ -442,7 +458,7 @@ func (s *sshSrv) putObject(oid string, args []string, lines [][]byte) {
 
 func (s *sshSrv) verifyObject(oid string, args []string) {
 	n := s.attempt("verify-" + oid)
-	kind := pick(s.sc.Verify[oid], n)
+	kind := behaviourFor(s.sc.Verify, s.sc.VerifyFaults, oid, n)
 	s.logf(map[string]interface{}{"kind": "verify-object", "oid": oid, "args": args, "behave": kind, "attempt": n})
 	switch kind {
 	case "status500":
